@@ -440,6 +440,8 @@ pub struct ResMonitor {
     failed_owner_closed: BTreeSet<usize>,
     past_owners: BTreeMap<usize, Vec<usize>>,
     closed_by_owner: BTreeMap<usize, u32>,
+    /// resources whose current owner got them in a message and has not operated on them since
+    unused_since_message: BTreeSet<usize>,
 }
 
 fn resources_in(v: &Value, depth: u8, out: &mut Vec<(usize, u8)>) {
@@ -542,16 +544,10 @@ impl ResMonitor {
             if Self::failed(world, o) && self.failed_owner_closed.insert(*rid) {
                 self.probe("owner_terminated_by_failure_resource_closed");
             }
-            if let Some(w) = world.worker_of(o)
-                && let Some(p) = world.workers[w].verif_executor().get_process(o)
-            {
-                let mut rs = Vec::new();
-                for m in &p.mailbox {
-                    resources_in(m, 0, &mut rs);
-                }
-                if rs.iter().any(|(r, _)| r == rid) {
-                    self.probe("handle_in_mailbox_of_finished_process_closed");
-                }
+            // (judged from the history: since terminated processes discard their mailboxes the handle
+            // can no longer be seen lying there)
+            if self.unused_since_message.remove(rid) {
+                self.probe("handle_in_mailbox_of_finished_process_closed");
             }
         }
         None
@@ -576,6 +572,11 @@ impl ResMonitor {
             }
             self.owner.insert(r, to);
             let _ = world;
+            if how == "spawn" {
+                self.unused_since_message.remove(&r);
+            } else {
+                self.unused_since_message.insert(r);
+            }
             if how == "spawn" {
                 self.probe("transfer_by_spawn");
                 if depth >= 3 {
@@ -682,6 +683,7 @@ impl Monitor for ResMonitor {
                                     return Some(Violation::new("C14", "exclusive-use", "owner-rejected", format!("process {process_id} owns open resource {r} but its request {:?} did not reach the backend", effect), world.steps));
                                 }
                                 let rec = q.pop_front().unwrap();
+                                self.unused_since_message.remove(&r);
                                 if let BackendRec::Execute { op: BackendOp::Close { .. }, outcome, .. } = rec
                                     && outcome == "ok"
                                 {
